@@ -198,23 +198,29 @@ theorem arange_len_char (start stop sn : Int) (sd : Nat) (hsn : sn ≠ 0) (k : N
       have : (0 : Int) ≤ (k : Int) * (S : Int) := Int.mul_nonneg (by omega) (by omega)
       omega
 
-/-- inside the float-exact range the length is NumPy's, for either sign of the step -/
-theorem arange_len (start stop sn : Int) (sd : Nat) (hsn : sn ≠ 0) (hsd : 0 < sd)
-    (hA : (stop - start).natAbs * sd < 2 ^ 24 ∧ sn.natAbs < 2 ^ 24) :
-    arangeLen start stop sn sd = some (arangeLenSpec start stop sn sd) := by
-  have hsd' : ¬ sd = 0 := by omega
-  simp only [arangeLen, hsn, hsd', or_self, if_false, hA, and_self, if_true, Option.some.injEq]
+/-- the exact-quotient count (what the code computes inside the float-exact range, and what an integer ceiling division
+    computes everywhere) is NumPy's count, for either sign of the step — no range restriction -/
+theorem arangeLenExact_eq_spec (start stop sn : Int) (sd : Nat) (hsn : sn ≠ 0) :
+    arangeLenExact (stop - start) sn sd = arangeLenSpec start stop sn sd := by
   unfold arangeLenExact arangeLenSpec Q.div ceilPos
   simp only [Int.mul_one, Nat.one_mul, Int.natCast_one]
   by_cases hpos : 0 < sn
   · have h1 : ¬ sn < 0 := by omega
     have h2 : sn.natAbs = sn.toNat := by omega
     simp only [hpos, h1, if_true, if_false, Int.one_mul, h2, gt_iff_lt]
-  · have h1 : sn < 0 := by omega
+  · have hneg : sn < 0 := by omega
     have h2 : sn.natAbs = (-sn).toNat := by omega
     have h3 : ∀ a : Int, (0 < -1 * a ↔ a < 0) := by intro a; omega
     have h4 : ∀ a : Int, (-1 * a).toNat = (-a).toNat := by intro a; congr 1; omega
-    simp only [hpos, h1, if_true, if_false, h2, gt_iff_lt, h3, h4]
+    simp only [hpos, hneg, if_true, if_false, h2, gt_iff_lt, h3, h4]
+
+/-- inside the float-exact range the length is NumPy's, for either sign of the step -/
+theorem arange_len (start stop sn : Int) (sd : Nat) (hsn : sn ≠ 0) (hsd : 0 < sd)
+    (hA : (stop - start).natAbs * sd < 2 ^ 24 ∧ sn.natAbs < 2 ^ 24) :
+    arangeLen start stop sn sd = some (arangeLenSpec start stop sn sd) := by
+  have hsd' : ¬ sd = 0 := by omega
+  simp only [arangeLen, hsn, hsd', or_self, if_false, hA, and_self, if_true, Option.some.injEq]
+  exact arangeLenExact_eq_spec start stop sn sd hsn
 
 /-- step 0: the C++ divides by zero and converts the result to `size_t` (UB) — no answer in the model -/
 theorem arange_step_zero (start stop : Int) (sd : Nat) : arangeLen start stop 0 sd = none := by simp [arangeLen]
